@@ -16,6 +16,9 @@ pub struct WriteOutcome {
     pub readable: bool,
     pub finalize_called: bool,
     pub panicked: bool,
+    /// a failed top-level finalize was tried again (programs with `retry_finalize`), and how that ended
+    pub retried: bool,
+    pub retry_ok: bool,
     /// blobs added directly (offset, length)
     pub blobs: Vec<(u64, u64)>,
 }
@@ -122,7 +125,7 @@ impl std::io::Read for Pieces<'_> {
 
 /// Run the writer part of a program against `dev`. Every API call becomes one trace event.
 pub fn run_writer(prog: &Value, dev: &Dev, t: &mut TraceOut) -> WriteOutcome {
-    let mut out = WriteOutcome { all_ok: true, readable: false, finalize_called: false, panicked: false, blobs: vec![] };
+    let mut out = WriteOutcome { all_ok: true, readable: false, finalize_called: false, panicked: false, retried: false, retry_ok: false, blobs: vec![] };
     let steps = prog["steps"].as_array().cloned().unwrap_or_default();
     let guid = strv(&steps[0]["guid"]);
     let mut call = 0usize;
@@ -350,6 +353,10 @@ pub fn run_writer(prog: &Value, dev: &Dev, t: &mut TraceOut) -> WriteOutcome {
                     let res = res_unit(r);
                     t.ev(json!({"ev":"pc_finalize","res":res}));
                     note(&res, &mut out);
+                    if step["end"].as_str() == Some("finalize_twice") {
+                        let r = catch(|| pcw.finalize());
+                        t.ev(json!({"ev":"pc_finalize_again","res":res_unit(r)}));
+                    }
                 }
             }
             "image" => {
@@ -432,6 +439,10 @@ pub fn run_writer(prog: &Value, dev: &Dev, t: &mut TraceOut) -> WriteOutcome {
                     let res = res_unit(r);
                     t.ev(json!({"ev":"im_finalize","res":res}));
                     note(&res, &mut out);
+                    if step["end"].as_str() == Some("finalize_twice") {
+                        let r = catch(|| iw.finalize());
+                        t.ev(json!({"ev":"im_finalize_again","res":res_unit(r)}));
+                    }
                 }
             }
             "finalize" => {
@@ -478,6 +489,13 @@ pub fn run_writer(prog: &Value, dev: &Dev, t: &mut TraceOut) -> WriteOutcome {
                 t.ev(json!({"ev":"w_finalize","custom": ins.is_some(),"text_lb":text_lb,"nonxml": if prog["nonxml"] == true {1} else {0},"res":res}));
                 if note(&res, &mut out) {
                     out.readable = true;
+                } else if prog["retry_finalize"] == true && !out.panicked {
+                    // the caller tries once more after a failed finalize (C16: Ok only with a complete file)
+                    let r = catch(|| w.finalize());
+                    let res = res_unit(r);
+                    out.retried = true;
+                    out.retry_ok = res.get("ok").is_some();
+                    t.ev(json!({"ev":"w_finalize_retry","res":res}));
                 }
             }
             other => panic!("harness: unknown step {other}"),
